@@ -17,6 +17,7 @@ import (
 
 	"gorumsim/simnet"
 	"gorumsim/simrt"
+	"gorumsim/simrt/dsync"
 )
 
 // Result is what one run reports.
@@ -126,6 +127,11 @@ func (w *World) run(opt RunOptions, res *Result) {
 	}
 	w.armSiteFaults()
 	w.phase = "setup"
+	if modeL1 && w.Cfg.StallPermille > 0 {
+		// T6 (race-detector runs): hold goroutines of the library up at a per-run subset of its statements
+		w.stalls = &dsync.StallConfig{Seed: w.Cfg.Seed, Permille: uint32(w.Cfg.StallPermille), HitPct: uint32(w.Cfg.StallHitPct), MaxShift: uint32(w.Cfg.StallMaxShift), Budget: 300}
+		dsync.SetStalls(w.stalls)
+	}
 
 	down := map[int]bool{}
 	for _, d := range w.Cfg.Down {
@@ -396,6 +402,10 @@ func (w *World) allCallsDone() bool {
 
 func (w *World) teardown(res *Result) {
 	w.phase = "teardown"
+	if w.stalls != nil {
+		dsync.SetStalls(nil)
+		w.faults["stall"] += int(dsync.StallsFired(w.stalls))
+	}
 	w.settling = true
 	w.settlingA.Store(true)
 	for _, c := range w.calls[1:] {
